@@ -42,6 +42,8 @@ type Contract struct {
 	Tracks   []*Clause
 	Preserves []*Clause
 	Stables  []*Clause
+	Steps    []*Clause
+	Dispatch map[string][]string
 	Modifies []string
 	HasMod   bool
 	Trusted  bool // from a .spec file (assumed, never verified)
@@ -80,7 +82,7 @@ func newContractSet() *ContractSet {
 	return &ContractSet{Funcs: map[string]*Contract{}, Preds: map[string]*Pred{}, Ghosts: map[string]string{}}
 }
 
-var clauseRe = regexp.MustCompile(`^(stable|preserves|requires|ensures|invariant|decreases|atcall|track|modifies|opt|loop|axiom|pred|ghost|func|lemma)\b(\[[A-Za-z0-9, ]*\])?\s*(.*)$`)
+var clauseRe = regexp.MustCompile(`^(dispatch|step|stable|preserves|requires|ensures|invariant|decreases|atcall|track|modifies|opt|loop|axiom|pred|ghost|func|lemma)\b(\[[A-Za-z0-9, ]*\])?\s*(.*)$`)
 
 func (cs *ContractSet) parseFile(path string, trusted bool) error {
 	data, err := os.ReadFile(path)
@@ -181,6 +183,39 @@ func (cs *ContractSet) parseFile(path string, trusted bool) error {
 				}
 				cur.Opts[k] = v
 			}
+		case "dispatch":
+			// dispatch <iface method key>: T1, T2   -- the only package types the receiver can hold
+			if cur == nil {
+				return fmt.Errorf("%s:%d: dispatch outside func", path, s.line)
+			}
+			i := strings.Index(rest, ": ")
+			key := rest
+			var tys []string
+			if i >= 0 {
+				key = strings.TrimSpace(rest[:i])
+				for _, t := range strings.Split(rest[i+2:], ",") {
+					if t = strings.TrimSpace(t); t != "" && t != "none" {
+						tys = append(tys, t)
+					}
+				}
+			}
+			if cur.Dispatch == nil {
+				cur.Dispatch = map[string][]string{}
+			}
+			cur.Dispatch[key] = tys
+		case "step":
+			// two-state relation (uses old(...)), reflexive and transitive by construction of the
+			// author: an ordinary postcondition that is also assumed after library-mediated callbacks
+			if cur == nil {
+				return fmt.Errorf("%s:%d: step outside func", path, s.line)
+			}
+			c2, err := mk("ensures", rest)
+			if err != nil {
+				return err
+			}
+			c2.Index = len(cur.Ensures) + 1
+			cur.Ensures = append(cur.Ensures, c2)
+			cur.Steps = append(cur.Steps, c2)
 		case "stable":
 			if cur == nil {
 				return fmt.Errorf("%s:%d: stable outside func", path, s.line)
